@@ -53,7 +53,7 @@ func (r *resumeCase) labCase() *lab.Case {
 func genResumeCase(t *rapid.T) *resumeCase {
 	r := &resumeCase{}
 	r.Engine = rapid.SampledFrom([]string{"v1", "v2"}).Draw(t, "engine")
-	r.N = rapid.IntRange(1, 60).Draw(t, "n")
+	r.N = rapid.IntRange(1, 300).Draw(t, "n")
 	r.Batches = rapid.SliceOfN(rapid.IntRange(1, 7), 1, 3).Draw(t, "batches")
 	r.Dests = rapid.IntRange(1, 2).Draw(t, "dests")
 	r.WaitAcks = rapid.IntRange(0, r.N).Draw(t, "wait_acks")
